@@ -540,6 +540,12 @@ func (x *exec) compareWriteResp(s Step, obs Resp, exp Expect) *failure {
 		if exp.TTLRule == 1 && obs.Action != ActTTLRollback {
 			return &failure{owners: []int{19}, sig: "expired-lock-not-rolled-back", msg: fmt.Sprintf("primary lock expired at the caller's timestamp (cur >= ts+ttl) but CheckTxnStatus answered %s", respString(obs))}
 		}
+		if exp.Committed != 0 && obs.Err() == nil && (obs.CommitVersion != exp.Committed || obs.Action == ActNoLockRB || obs.Action == ActTTLRollback) {
+			return &failure{owners: []int{18}, sig: "status-of-committed-txn-wrong", msg: fmt.Sprintf("the primary's lock is gone and its commit record (commit version %d) exists, but CheckTxnStatus answered %s: the outcome of a transaction is final and must be reported as committed at that version", exp.Committed, respString(obs))}
+		}
+		if exp.RolledBack && obs.Err() == nil && obs.CommitVersion != 0 {
+			return &failure{owners: []int{18}, sig: "status-of-rolled-back-txn-wrong", msg: fmt.Sprintf("the primary carries a rollback record of this transaction, but CheckTxnStatus answered %s", respString(obs))}
+		}
 		if exp.TTLRule == -1 && obs.Action == ActTTLRollback {
 			return &failure{owners: []int{19}, sig: "unexpired-lock-rolled-back", msg: fmt.Sprintf("CheckTxnStatus reported a TTL rollback although the primary lock has not expired (or ttl=0 / no such lock): %s", respString(obs))}
 		}
